@@ -1014,3 +1014,76 @@ def engine_suite(tier, seed):
     if not res['errors']:
         cache_put(key, res)
     return res
+
+
+POOLMT_CFG = """SPECIFICATION Spec
+CONSTANTS
+    Bufs = %(bufs)s
+    Threads = %(threads)s
+    W = %(w)d
+    Start = %(start)d
+    MaxTakes = %(takes)d
+    Dev = %(dev)s
+INVARIANTS
+    Exclusive
+    NoOverrun
+    Conserved
+CHECK_DEADLOCK FALSE
+"""
+
+
+def engine_pool(tier, seed):
+    """C08 at thread level: PoolMT.tla (buffers given back on several threads while
+    the kernel selects at any time, every wrap position of a small counter) and
+    the real ReadBufPool under the baton scheduler."""
+    key = 'pool-%s-%s-%d' % (tier, tree_hash(), seed)
+    cached = cache_get(key)
+    if cached:
+        cached['cached'] = True
+        return cached
+    t0 = time.time()
+    res = {'engine': 'pool', 'tier': tier, 'tlc': [], 'replays': [], 'divergences': [], 'errors': [], 'samples': [],
+           'cached': False}
+    bindir = build_harness()
+    binary = os.path.join(bindir, 'sched_pool')
+    models = [dict(bufs='{1, 2}', threads='{1, 2}', w=8, start=s, takes=3) for s in (0, 5, 6, 7)]
+    models += [dict(bufs='{1, 2, 3, 4}', threads='{1, 2}', w=8, start=4, takes=3)]
+    if tier == 'thorough':
+        models += [dict(bufs='{1, 2}', threads='{1, 2, 3}', w=8, start=s, takes=4) for s in range(8)]
+        models += [dict(bufs='{1, 2, 3, 4}', threads='{1, 2, 3}', w=16, start=12, takes=4)]
+    for i, m in enumerate(models):
+        cfg = write_cfg('poolmt_%d' % i, POOLMT_CFG % dict(m, dev='{}'))
+        r = run_tlc('poolmt_%d' % i, 'MC_PoolMT', cfg, timeout=1800)
+        r['purpose'] = 'contract: %s' % m
+        res['tlc'].append(r)
+        if not r['ok']:
+            res['errors'].append('TLC %s: %s' % (r['name'], r['violated'] or r['error']))
+    cfg = write_cfg('poolmt_dev', POOLMT_CFG % dict(models[0], dev='{"ClobberTail"}'))
+    r = run_tlc('poolmt_dev', 'MC_PoolMT', cfg, timeout=600)
+    r['purpose'] = 'sanity: deviation ClobberTail (the code before the fix) must violate an invariant'
+    if not r['violated']:
+        res['errors'].append('PoolMT: the ClobberTail deviation no longer violates any invariant (vacuous model?)')
+    r['ok'] = True
+    res['tlc'].append(r)
+    runs = [dict(bufs=2, takes=3, rounds=0, pre=2, maxexec=1200), dict(bufs=2, takes=3, rounds=1, pre=1, maxexec=500),
+            dict(bufs=4, takes=2, rounds=0, pre=1, maxexec=400)]
+    if tier == 'thorough':
+        runs = [dict(bufs=2, takes=3, rounds=0, pre=2, maxexec=40000), dict(bufs=2, takes=3, rounds=1, pre=2, maxexec=20000),
+                dict(bufs=4, takes=3, rounds=0, pre=1, maxexec=20000), dict(bufs=2, takes=2, rounds=3, pre=1, maxexec=5000)]
+    for i, rn in enumerate(runs):
+        outdir = os.path.join(BUILD, 'replay', 'pool_%d' % i)
+        args = ['--bufs', str(rn['bufs']), '--takes', str(rn['takes']), '--rounds', str(rn['rounds']), '--preemptions', str(rn['pre']),
+                '--max-exec', str(rn['maxexec'])]
+        rc, recs, summary, err = sched_run(binary, args, outdir, 'C08', 'PoolMT')
+        if summary is None:
+            res['errors'].append('sched_pool run %d died (rc %s): %s' % (i, rc, err))
+            continue
+        res['divergences'] += recs
+        res['replays'].append({'model': 'PoolMT/real ReadBufPool under the baton scheduler', 'variant': json.dumps(rn), 'paths': summary['paths'],
+                               'steps': summary['steps'], 'diverged_paths': summary['diverged_paths'],
+                               'schedule_space_exhausted': summary.get('complete'), 'crashes': 0})
+    res['wall_s'] = round(time.time() - t0, 1)
+    res['divergences_total'] = len(res['divergences'])
+    if not res['errors']:
+        cache_put(key, res)
+    return res
